@@ -13,21 +13,31 @@ From Coq Require Import ZifyN ZifyNat ZifyBool.
 Open Scope N_scope.
 
 (* ---------------- one I/O action, whatever the fault state ---------------- *)
-Lemma io_cases a e ok e' :
+Lemma io_cases3 a e ok e' :
   io a e = (ok, e') ->
-  (ok = true /\ e_disk e' = apply_act (e_disk e) a) \/ (ok = false /\ e_disk e' = e_disk e).
+  (ok = true /\ e_disk e' = apply_act (e_disk e) a) \/ (ok = false /\ e_disk e' = e_disk e) \/
+  (* a BoltDB transaction reported as failed and found applied *)
+  (ok = false /\ is_txn a = true /\ e_disk e' = apply_act (e_disk e) a).
 Proof.
   unfold io. destruct (is_delete a).
   - destruct (armed e && fx_del (e_fx e)); intros [= <- <-]; cbn; auto.
-  - destruct (e_fault e) as [[|k]|]; intros [= <- <-]; cbn; auto.
+  - destruct (e_fault e) as [[|k]|]; [|intros [= <- <-]; cbn; auto..].
+    destruct (is_txn a) eqn:Et, (fx_land (e_fx e)); cbn [andb]; intros [= <- <-]; cbn; auto.
 Qed.
 
-Lemma werun_io c bd e a ba ok e' :
+Lemma io_cases a e ok e' :
+  io a e = (ok, e') -> is_txn a = false ->
+  (ok = true /\ e_disk e' = apply_act (e_disk e) a) \/ (ok = false /\ e_disk e' = e_disk e).
+Proof.
+  intros H Ht. destruct (io_cases3 _ _ _ _ H) as [K|[K|(_ & K & _)]]; [left; exact K|right; exact K|congruence].
+Qed.
+
+Lemma werun_io c bd e a ba ok e' : is_txn a = false ->
   io a e = (ok, e') -> wdrep c bd (e_disk e) -> bmatch a ba ->
   wdrep c (bapply bd ba) (apply_act (e_disk e) a) ->
   werun c bd e (if ok then bapply bd ba else bd) e'.
 Proof.
-  intros Hio H0 Hm H1. destruct (io_cases _ _ _ _ Hio) as [(-> & E)|(-> & E)].
+  intros Hnt Hio H0 Hm H1. destruct (io_cases _ _ _ _ Hio Hnt) as [(-> & E)|(-> & E)].
   - exists [a]. rewrite E. apply wlrun_one; assumption.
   - exists []. rewrite E. constructor. exact H0.
 Qed.
@@ -37,13 +47,17 @@ Lemma werun_meta c bd e a ok e' :
 Proof.
   intros Hio Hm H0.
   assert (Hb : bmatch a BNone) by (destruct a; cbn in Hm |- *; try contradiction; reflexivity).
-  pose proof (werun_io c bd e a BNone ok e' Hio H0 Hb (wnone_drep _ _ _ _ Hm H0)) as H.
-  destruct ok; exact H.
+  pose proof (wnone_drep _ _ _ _ Hm H0) as H1.
+  destruct (io_cases3 _ _ _ _ Hio) as [(_ & E)|[(_ & E)|(_ & _ & E)]].
+  - exists [a]. rewrite E. change bd with (bapply bd BNone) at 2. apply wlrun_one; assumption.
+  - exists []. rewrite E. constructor. exact H0.
+  - exists [a]. rewrite E. change bd with (bapply bd BNone) at 2. apply wlrun_one; assumption.
 Qed.
 
 Lemma io_meta_files a e ok e' : io a e = (ok, e') -> meta_act a -> dk_files (e_disk e') = dk_files (e_disk e).
 Proof.
-  intros Hio Hm. destruct (io_cases _ _ _ _ Hio) as [(_ & E)|(_ & E)]; rewrite E; [apply meta_act_files; exact Hm|reflexivity].
+  intros Hio Hm. destruct (io_cases3 _ _ _ _ Hio) as [(_ & E)|[(_ & E)|(_ & _ & E)]]; rewrite E;
+    [apply meta_act_files; exact Hm|reflexivity|apply meta_act_files; exact Hm].
 Qed.
 
 (* ---------------- the weak tail link across actions on other files ---------------- *)
@@ -107,8 +121,8 @@ Proof.
   - unfold delete_files. cbn [fold_left]. fold (delete_files ns (snd (io (ADelete n) e))).
     destruct (io (ADelete n) e) as [ok e1] eqn:Eio. cbn [snd].
     assert (H1 : wdrep c (bapply bd (BDelete n)) (apply_act (e_disk e) (ADelete n))) by (apply wdelete_drep; exact H0).
-    pose proof (werun_io c bd e (ADelete n) (BDelete n) ok e1 Eio H0 eq_refl H1) as E1.
-    destruct (io_cases _ _ _ _ Eio) as [(-> & Ed)|(-> & Ed)].
+    pose proof (werun_io c bd e (ADelete n) (BDelete n) ok e1 eq_refl Eio H0 eq_refl H1) as E1.
+    destruct (io_cases _ _ _ _ Eio eq_refl) as [(-> & Ed)|(-> & Ed)].
     + destruct (IH (bapply bd (BDelete n)) e1 t) as (bd' & E2 & Hnd' & Ht').
       * rewrite Ed. exact H1.
       * rewrite Ed. apply NoDup_apply. exact Hnd.
@@ -165,7 +179,7 @@ Proof.
     + destruct (io _ e) as [ok e1] eqn:Eio.
       assert (H1 : forall size, wdrep c (bapply bd (BCreate (name_of si) size)) (apply_act (e_disk e) (ACreate (name_of si) size)))
         by (intros size; apply wcreate_drep; assumption).
-      destruct (io_cases _ _ _ _ Eio) as [(-> & Ed)|(-> & Ed)].
+      destruct (io_cases _ _ _ _ Eio eq_refl) as [(-> & Ed)|(-> & Ed)].
       * intros [= <- <-]. exists (bapply bd (BCreate (name_of si) (si_size_limit si))).
         split; [exists [ACreate (name_of si) (si_size_limit si)]; rewrite Ed; apply wlrun_one; [exact H0|reflexivity|apply H1]|].
         rewrite Ed. split; [apply NoDup_apply; exact Hnd|]. split; [apply Hother|].
@@ -184,17 +198,17 @@ Qed.
 (* the environment after the two actions of a commit, whatever fails *)
 Lemma do_acts2_cases e a1 a2 :
   let e' := do_acts e [a1; a2] in
-  is_delete a1 = false -> is_delete a2 = false ->
+  is_delete a1 = false -> is_delete a2 = false -> is_txn a1 = false -> is_txn a2 = false ->
   (both_ok (e_fault e) = true /\ e_disk e' = apply_act (apply_act (e_disk e) a1) a2) \/
   (e_fault e = Some 1%nat /\ e_disk e' = apply_act (e_disk e) a1) \/
   (e_fault e = Some O /\ e_disk e' = e_disk e).
 Proof.
-  intros e' H1 H2. unfold e'. cbn [do_acts]. rewrite (io_char _ e H1).
+  intros e' H1 H2 T1 T2. unfold e'. cbn [do_acts]. rewrite (io_char _ e H1 T1).
   destruct (e_fault e) as [[|[|k]]|] eqn:Ef.
   - right. right. auto.
-  - right. left. split; [reflexivity|]. rewrite (io_char _ _ H2). rewrite e_fault_io_ok, Ef. reflexivity.
-  - left. split; [reflexivity|]. rewrite (io_char _ _ H2). rewrite e_fault_io_ok, Ef. reflexivity.
-  - left. split; [reflexivity|]. rewrite (io_char _ _ H2). rewrite e_fault_io_ok, Ef. reflexivity.
+  - right. left. split; [reflexivity|]. rewrite (io_char _ _ H2 T2). rewrite e_fault_io_ok, Ef. reflexivity.
+  - left. split; [reflexivity|]. rewrite (io_char _ _ H2 T2). rewrite e_fault_io_ok, Ef. reflexivity.
+  - left. split; [reflexivity|]. rewrite (io_char _ _ H2 T2). rewrite e_fault_io_ok, Ef. reflexivity.
 Qed.
 
 Lemma wcommit_link c tw info bs bd e op ls w1' new tot pb tw' :
@@ -227,7 +241,7 @@ Proof.
     { cbn [fold_left cstep c_img]. rewrite len_app, Hlb. rewrite Hoff in Hguard. exact Hguard. }
     destruct (wrun_char info [op] s w1' _ [b] Hrun Hl2) as (Ew & _). cbn [fold_left] in Ew.
     rewrite cstate_snoc. exact Ew. }
-  pose proof (do_acts2_cases e aw (ASync n) eq_refl eq_refl) as Hcases. fold e' in Hcases.
+  pose proof (do_acts2_cases e aw (ASync n) eq_refl eq_refl eq_refl eq_refl) as Hcases. fold e' in Hcases.
   destruct (lookup n (dk_files (e_disk e))) as [f|] eqn:El.
   - destruct (Tf f El) as (bf & pb0 & Hbl & R).
     assert (Hlen' : len (image info (bs ++ [b])) < two32).
